@@ -258,7 +258,7 @@ def inverse_pairs(repo, rep, r1, c, m, wf, wkeys, ed):
         written = written.rename({s: s.replace(psn + ".", "F.") for s in written.symbols()})
         # ed(): the store whose value mentions the ed parameter bound to this key (same name as the key by convention of the call)
         for n in walk_local_stmt(ed.node):
-            if isinstance(n, ast.Assign) and len(n.targets) == 1 and isinstance(n.targets[0], ast.Attribute) and isinstance(n.value, ast.BinOp):
+            if isinstance(n, ast.Assign) and len(n.targets) == 1 and isinstance(n.targets[0], ast.Attribute):
                 names = {x.id for x in ast.walk(n.value) if isinstance(x, ast.Name)}
                 if wk.key in names:
                     fld = n.targets[0].attr
